@@ -18,12 +18,12 @@ P = {
         "name": "tree", "pkg": "./internal/x/radixtree", "test": "TestVerifC02Tree",
         "overlay": dict({"internal/x/radixtree/zz_verif_c02_test.go": "c02/c02_tree_test.go"}, **_OVERLAY_GEN),
         "eval_module": "Run.Eval_C02", "check_term": "check_tree true",
-        "n_quick": 600, "n_thorough": 15000, "shard": 60, "findings": {},
+        "n_quick": 600, "n_thorough": 15000, "shard": 60, "findings": {2: "C02-F2"},
     }, {
         "name": "repo", "pkg": "./internal/rules", "test": "TestVerifC02Repo",
         "overlay": dict({"internal/rules/zz_verif_c02_test.go": "c02/c02_repo_test.go"}, **_OVERLAY_GEN),
         "eval_module": "Run.Eval_C02", "check_term": "check_repo true",
-        "n_quick": 400, "n_thorough": 10000, "shard": 60, "findings": {},
+        "n_quick": 400, "n_thorough": 10000, "shard": 60, "findings": {2: "C02-F2"},
     }],
     "rule": "a case = one fresh index (stream tree: 1-12 Adds on a real radixtree.Tree with the repository's values constraint "
             "and a WithBacktracking option per Add; stream repo: 1-5 rule sets of real ruleImpl/routeImpl values with real "
